@@ -19,7 +19,7 @@ import subprocess
 from . import common
 
 MODULES = ["CoapVerif.Props.C17"]
-GENERATED = ["RouterLockShape.lean"]
+GENERATED = ["RouterLockShape.lean", "OptionDefs.lean"]
 
 
 def hx(s):
@@ -309,6 +309,108 @@ def gen_systematic():
     return cases
 
 
+# ---------------------------------------------------------------- requests as bytes (independent encoder, RFC 7252 §3 / RFC 8323 §3.2)
+
+def _ext(v):
+    if v < 13:
+        return v, b""
+    if v < 269:
+        return 13, bytes([v - 13])
+    return 14, (v - 269).to_bytes(2, "big")
+
+
+def enc_options(opts):
+    out = b""
+    prev = 0
+    for num, val in sorted(opts, key=lambda o: o[0]):      # stable: Uri-Path values keep their order
+        dn, de = _ext(num - prev)
+        ln, le = _ext(len(val))
+        out += bytes([dn * 16 + ln]) + de + le + val
+        prev = num
+    return out
+
+
+def enc_request(rng, transport, code, segs):
+    """datagram (udp) or frame (tcp/tcpsrv) of a message with the given code and one Uri-Path option per segment"""
+    token = bytes(rng.randrange(256) for _ in range(rng.choice([0, 1, 2, 4, 8])))
+    opts = [(11, s.encode("utf-8")) for s in segs]
+    if rng.random() < 0.25:
+        opts.append((3, b"host"))
+    if rng.random() < 0.25:
+        opts.append((15, b"q=1"))
+    if rng.random() < 0.15:
+        opts.append((17, b""))
+    if rng.random() < 0.1:
+        opts.append((12, b""))
+    body = enc_options(opts)
+    if rng.random() < 0.25:
+        body += b"\xff" + bytes(rng.randrange(256) for _ in range(rng.randrange(1, 20)))
+    if transport == "udp":
+        typ = rng.choice([0, 1])                              # CON / NON
+        mid = rng.randrange(1, 0xffff)
+        return bytes([0x40 | (typ << 4) | len(token), code]) + mid.to_bytes(2, "big") + token + body
+    n = len(body)
+    if n < 13:
+        nib, e = n, b""
+    elif n < 269:
+        nib, e = 13, bytes([n - 13])
+    else:
+        nib, e = 14, (n - 269).to_bytes(2, "big")
+    return bytes([nib * 16 + len(token)]) + e + bytes([code]) + token + body
+
+
+def segs_field(segs):
+    return "none" if not segs else ",".join(hx(s) for s in segs)
+
+
+def wire_line(rng, segs, code=None, transport=None):
+    if transport is None:
+        transport = rng.choice(["udp", "udp", "udp", "tcp", "tcp", "tcpsrv"])
+    if code is None:
+        k = rng.random()
+        code = rng.choice([1, 2, 3, 4]) if k < 0.4 else rng.choice([5, 6, 7]) if k < 0.8 else \
+            rng.choice([8, 13, 20, 31]) if k < 0.9 else rng.choice([65, 69, 132, 160])
+    return "wire %s %d %s %s" % (transport, code, segs_field(segs), enc_request(rng, transport, code, segs).hex())
+
+
+def gen_wire_case(rng):
+    """a case of gen_case with every dispatch turned into a request on the wire (extra weight on empty segments)"""
+    lines, meta = gen_case(rng)
+    out = []
+    for l in lines:
+        f = l.split()
+        if f[0] in ("serve", "served"):
+            segs = [] if f[1] == "none" else unhx(f[1])[1:].split("/")
+            if segs and rng.random() < 0.25:
+                i = rng.choice([len(segs), len(segs), 0, rng.randrange(len(segs) + 1)])
+                segs = segs[:i] + [""] + segs[i:]
+            if any(len(x.encode("utf-8")) > 255 for x in segs):
+                continue
+            out.append(wire_line(rng, segs))
+        elif f[0] != "match":
+            out.append(l)
+    return out, meta
+
+
+def gen_wire_systematic(rng):
+    cases = []
+    fams = [(["/a", "/a/", "/dev/{id}", "/dev/{id}/", "//a", "/", "/{x}", "/{x}/"],
+             [["a"], ["a", ""], ["dev", "42"], ["dev", "42", ""], ["", "a"], [""], [], ["", ""], ["zz"], ["zz", ""], ["a", "", ""]]),
+            (["/a", "/dev/{id}"], [["a"], ["a", ""], ["dev", "42"], ["dev", "42", ""], ["", "a"], [""], []]),
+            (["/rooms/{room}/lamps/{lamp}", "/rooms/{room}", "/version"],
+             [["rooms", "r1", "lamps", "l2"], ["rooms", "r7"], ["version"], ["nothing", "here"], [], ["rooms", "r7", ""], ["version", ""]])]
+    for ts, ps in fams:
+        for tr in ("udp", "tcp", "tcpsrv"):
+            lines = ["reset"] + ["route %s h%d" % (hx(t), i) for i, t in enumerate(ts)]
+            for code in (1, 2, 3, 4, 5, 6, 7, 20, 69):
+                for segs in ps:
+                    lines.append(wire_line(rng, segs, code, tr))
+            lines += ["default d1"] + [wire_line(rng, segs, c, tr) for segs in ps for c in (1, 5)]
+            lines += ["mw m1", "default nil"] + [wire_line(rng, segs, c, tr) for segs in ps for c in (2, 6)]
+            cases.append((lines, {"meta_literal": False, "invalid": 0, "templates": ts}))
+    return cases
+
+
 def load_corpus():
     out = []
     for p in sorted(glob.glob(os.path.join(common.VERIF, "corpus", "C17", "*.json"))):
@@ -319,9 +421,33 @@ def load_corpus():
     return out
 
 
+def run_wire(art, lines):
+    """the lines through harness/c17wire (go test binary, synctest, real connections)"""
+    d = os.path.join(common.WORK, "C17")
+    os.makedirs(d, exist_ok=True)
+    inp = os.path.join(d, "wire-%d.in" % os.getpid())
+    outp = os.path.join(d, "wire-%d.out" % os.getpid())
+    open(inp, "w").write("\n".join(lines) + "\n")
+    if os.path.exists(outp):
+        os.remove(outp)
+    e = dict(os.environ, VERIF_IN=inp, VERIF_OUT=outp)
+    try:
+        p = subprocess.run([art["wire"], "-test.run", "^TestC17Wire$", "-test.timeout", "1500s"], cwd=d, env=e,
+                           stdout=subprocess.PIPE, stderr=subprocess.STDOUT, text=True, timeout=1600)
+    except subprocess.TimeoutExpired:
+        return 1, [], "c17wire timed out"
+    out = open(outp).read().splitlines() if os.path.exists(outp) else []
+    return p.returncode, out, p.stdout[-600:]
+
+
 def run_lines(art, lines):
-    """(impl, model, judge) output lists; any may be None"""
-    rc, impl, err = common.pipe_lines([art["hx"]], lines)
+    """(impl, model, judge) output lists; any may be None. Lines with `wire` requests go to the connection harness."""
+    if any(l.startswith("wire ") for l in lines):
+        if not art.get("wire"):
+            return None, None, None, "wire harness missing"
+        rc, impl, err = run_wire(art, lines)
+    else:
+        rc, impl, err = common.pipe_lines([art["hx"]], lines)
     if rc != 0 or len(impl) != len(lines):
         return None, None, None, "harness rc=%d lines=%d/%d %s" % (rc, len(impl), len(lines), err[-300:])
     if not art.get("driver"):
@@ -367,13 +493,49 @@ def minimise(art, lines, clause):
     return lines
 
 
+DISPATCH_OPS = ("serve", "served", "match", "wire")
+
+
+def show_line(l):
+    f = l.split()
+    if f[0] == "wire":
+        return "wire %s code=%s path=%r bytes=%s" % (f[1], f[2], "(no Uri-Path)" if f[3] == "none" else "/" + "/".join(unhx(x) for x in f[3].split(",")), f[4])
+    if len(f) > 1 and f[0] in ("route", "routef", "unroute", "serve", "served", "match") and f[1] != "none":
+        return f[0] + " " + repr(unhx(f[1])) + " " + " ".join(f[2:])
+    return l
+
+
 def explore(ctx, art):
     rng = random.Random(ctx.seed)
     thorough = ctx.tier == "thorough"
-    cases = load_corpus() + gen_systematic()
+    cases = load_corpus()
+    direct = [c for c in cases if not any(l.startswith("wire ") for l in c[0])] + gen_systematic()
+    wired = [c for c in cases if any(l.startswith("wire ") for l in c[0])]
     n_random = 100000 if thorough else 6000
     for _ in range(n_random):
-        cases.append(gen_case(rng))
+        direct.append(gen_case(rng))
+    evaluate(ctx, art, direct, n_random)
+    if art.get("wire"):
+        wired += gen_wire_systematic(rng)
+        n_wire = 10000 if thorough else 1000
+        for _ in range(n_wire):
+            wired.append(gen_wire_case(rng))
+        evaluate(ctx, art, wired, n_wire)
+    ctx.cov["distinct_nontrivial"] = len(ctx.nontrivial)
+    ctx.cov["rule"] = ("one evaluation = one dispatch (serve: through mux.ToHandler, the servers' adapter, requests of a case one after another; "
+                       "served: Router.ServeCOAP directly; match: Router.Match directly; wire: request BYTES from an independent encoder "
+                       "- any method code, one Uri-Path option per segment incl. empty ones - into a real udp/tcp connection or tcp server "
+                       "whose handler was installed by options.WithMux) after a "
+                       "sequence of route/routef/unroute/default/mw operations on a fresh real mux.Router. Non-trivial = at least two "
+                       "registered patterns match the path, or a registered template has a regex metacharacter in a literal; distinct by "
+                       "(operation prefix, request). The implementation's answer must be among the model's outcomes over all map "
+                       "iteration orders and is judged by Spec/Router (derivative matcher, independent template cutter).")
+
+
+def evaluate(ctx, art, cases, n_random):
+    if not hasattr(ctx, "nontrivial"):
+        ctx.nontrivial = set()
+    nontrivial = ctx.nontrivial
     lines, owner = [], []
     for ci, (ls, meta) in enumerate(cases):
         for l in ls:
@@ -391,18 +553,23 @@ def explore(ctx, art):
         ci = owner[i]
         op = l.split()[0]
         ctx.count("op-" + op)
-        if op in ("serve", "served", "match"):
+        if op in DISPATCH_OPS:
             ctx.cov["evaluations"] += 1
             ctx.count("out-" + o.split()[0])
+            if op == "wire":
+                f = l.split()
+                ctx.count("wire-%s-code-%s" % (f[1], f[2] if int(f[2]) <= 7 else "other"))
+                if f[3] != "none" and "-" in f[3].split(","):
+                    ctx.count("wire-empty-uri-path-segment")
         elif op in ("route", "routef", "unroute"):
             ctx.count("reg-" + " ".join(o.split()[:2]))
-        if o.startswith("panic other") or o.split()[0] in ("multi", "chain-without-handler", "bad-path", "bad-op"):
+        if o.startswith("panic other") or o.split()[0] in ("multi", "chain-without-handler", "bad-path", "bad-op", "process-error", "conn-error"):
             bad_cases.setdefault(ci, ("no-crash:" + o.split()[0], "%s -> %s" % (l, o[:200])))
             continue
         if judge is not None:
             j = judge[i]
             if j.startswith("violates"):
-                bad_cases.setdefault(ci, (j.split(" ", 1)[1], "%s: observed `%s`: %s" % (l[:120], o[:200], j)))
+                bad_cases.setdefault(ci, (j.split(" ", 1)[1], "%s: observed `%s`: %s" % (show_line(l)[:200], o[:200], j)))
             elif j != "ok":
                 mism += 1
                 if mism <= 3:
@@ -413,10 +580,9 @@ def explore(ctx, art):
             if not model_accepts(m, o):
                 mism += 1
                 if mism <= 5:
-                    pat = unhx(l.split()[1]) if len(l.split()) > 1 and l.split()[1] not in ("none",) and op != "mw" and op not in ("default", "defaultf") else ""
                     ctx.broken.append(("correspondence", "C17 model vs implementation",
-                                       "case %d `%s` (%r): impl `%s` model `%s`; case: %s" % (ci, l, pat, o[:300], m[:300], " ; ".join(cases[ci][0][:40]))))
-            if op in ("serve", "served", "match") and " ## " in m:
+                                       "case %d `%s`: impl `%s` model `%s`; case: %s" % (ci, show_line(l), o[:300], m[:300], " ; ".join(cases[ci][0][:40]))))
+            if op in DISPATCH_OPS and " ## " in m:
                 k = int(m.rsplit(" ## ", 1)[1])
                 ctx.count("matching-%s" % (k if k < 4 else "4+"))
                 if " || " in m:
@@ -432,18 +598,11 @@ def explore(ctx, art):
             ls = cases[ci - back][0] + ls
         mini = minimise(art, ls, clause) if not clause.startswith("no-crash") else ls
         sig = "C17:%s" % clause
-        ctx.violations.append(common.Violation(clause, sig, what, {"input": mini, "templates": [unhx(l.split()[1]) for l in mini if l.split()[0] in ("route", "routef")]}))
-    ctx.cov["distinct_nontrivial"] = len(nontrivial)
-    ctx.cov["traces_validated_against_impl"] = len(cases)
-    ctx.cov["rule"] = ("one evaluation = one dispatch (serve: through mux.ToHandler, the servers' adapter, requests of a case one after another; "
-                       "served: Router.ServeCOAP directly; match: Router.Match directly) after a "
-                       "sequence of route/routef/unroute/default/mw operations on a fresh real mux.Router. Non-trivial = at least two "
-                       "registered patterns match the path, or a registered template has a regex metacharacter in a literal; distinct by "
-                       "(operation prefix, request). The implementation's answer must be among the model's outcomes over all map "
-                       "iteration orders and is judged by Spec/Router (derivative matcher, independent template cutter).")
-    for ls, meta in cases[len(cases) - n_random:len(cases) - n_random + 3]:
-        ctx.sample({"templates": meta["templates"], "ops": [l if l.split()[0] in ("reset", "mw", "default", "defaultf") or l == "serve none"
-                                                           else l.split()[0] + " " + repr(unhx(l.split()[1])) + " " + " ".join(l.split()[2:]) for l in ls[:14]]})
+        ctx.violations.append(common.Violation(clause, sig, what, {"input": mini, "readable": [show_line(l) for l in mini],
+                                                                   "templates": [unhx(l.split()[1]) for l in mini if l.split()[0] in ("route", "routef")]}))
+    ctx.cov["traces_validated_against_impl"] = ctx.cov.get("traces_validated_against_impl", 0) + len(cases)
+    for ls, meta in cases[len(cases) - n_random:len(cases) - n_random + 2]:
+        ctx.sample({"templates": meta["templates"], "ops": [show_line(l)[:160] for l in ls[:14]]})
 
 
 def race_evidence(ctx, art_race):
@@ -489,6 +648,7 @@ def prepare(ctx):
     art = common.standard_prepare(ctx, MODULES, hx=True, test=False, generated=GENERATED)
     with common.Lock():
         art["race"] = common.build_test(ctx, "c17race", race=True)
+        art["wire"] = common.build_test(ctx, "c17wire")
     return art
 
 
@@ -523,8 +683,7 @@ def replay(ctx, rep):
         return 1
     bad = 0
     for l, o, m, j in zip(lines, impl, model, judge):
-        f = l.split()
-        shown = f[0] + " " + (repr(unhx(f[1])) if len(f) > 1 and f[0] in ("route", "routef", "unroute", "serve", "served", "match") and f[1] != "none" else " ".join(f[1:2])) + " " + " ".join(f[2:])
+        shown = show_line(l)
         print("%s: implementation `%s`  model `%s`  judge `%s`" % (shown, o[:200], m[:200], j))
         if j.startswith("violates") or o.startswith("panic other"):
             bad += 1
